@@ -1359,7 +1359,7 @@ theorem processModule_ok {proj : Project} {rank : List Nat} (wf : WFacts proj ra
 theorem initSt_ok {proj : Project} {rank : List Nat} (wf : WFacts proj rank) (rx : RxFacts proj) :
     (initSt proj).bad = false ∧ PdInv proj (initSt proj) ∧ ∀ t, getPs (initSt proj) t ≠ .processing := by
   unfold initSt
-  have h0 : InitInv proj 0 ⟨Registry.init, List.replicate proj.length .unprocessed, List.replicate proj.length none, [], false⟩ :=
+  have h0 : InitInv proj 0 ⟨Registry.init, List.replicate proj.length .unprocessed, List.replicate proj.length none, [], false, []⟩ :=
     ⟨inv_holds_init, rfl, fun m hm => by omega, rfl, rfl, rfl⟩
   obtain ⟨hI, hb⟩ := addModules_ok wf proj 0 _ (Nat.zero_le _) (by simp) h0 rfl
   generalize addModules proj _ = s at hb hI
@@ -1453,13 +1453,20 @@ theorem process_ok {proj : Project} {rank : List Nat} (wf : WFacts proj rank) (r
 
 /-- **the run of a `WFr` project** (M2): it raises nothing, the relocated invariant holds at the end, no module
 is left in `processing`, every module of the order is processed -/
+/-- the invariant does not speak about the `pending` order -/
+theorem PdInv.setPending {proj : Project} {s : St} (h : PdInv proj s) (l : List Nat) : PdInv proj { s with pending := l } :=
+  { reg := h.reg, cbase := h.cbase, lens := h.lens, mods := h.mods, site := h.site, alias := h.alias, cont := h.cont,
+    alls := h.alls, started := h.started,
+    complete := fun m md hm hp => completeStmts_reg (s := s) rfl _ (h.complete m md hm hp),
+    movedPs := h.movedPs, movedIn := h.movedIn }
+
 theorem run_ok {proj : Project} {rank : List Nat} (wf : WFacts proj rank) (rx : RxFacts proj)
     (hro : ReparentOk) (hsl : SubLookup proj rank) (order : List Nat) :
     (run proj order).bad = false ∧ PdInv proj (run proj order) ∧ NoProcessing (run proj order) ∧
     ∀ m ∈ order, getPs (run proj order) m = .processed := by
   unfold run
   obtain ⟨hb0, hI0, hn0⟩ := initSt_ok wf rx
-  obtain ⟨h0, h1, h2, _, h4⟩ := process_ok wf rx hro hsl order _ hI0 hn0 hb0
+  obtain ⟨h0, h1, h2, _, h4⟩ := process_ok wf rx hro hsl order _ (hI0.setPending order) (fun t => hn0 t) hb0
   exact ⟨h0, h1, h2, h4⟩
 
 end Imports.Rx
